@@ -75,7 +75,9 @@ Definition form_header (st : dstate) : res :=
   | b0 :: _ =>
     let st1 := set_fmt st (get_format b0) in
     match get_csid (d_buf st) with
-    | None => Ok (NotEnoughBytes, st1, None)
+    | None => Ok (NotEnoughBytes, st, None)     (* the Rust code has already written current_header_format here; the field is
+                                                    overwritten by the next form_header before anything reads it, so the model
+                                                    leaves the state untouched (keeps "not enough bytes" a no-op) *)
     | Some (csid, next) =>
       match d_fmt st1 with
       | Full =>
@@ -226,3 +228,50 @@ Definition de_set_max_chunk_size (st : dstate) (n : N) : outcome dstate de_err :
   if (n =? 0) || (2147483647 <? n) then Err (DeInvalidMaxChunkSize n)
   else Ok {| d_max := n; d_fmt := d_fmt st; d_cur := d_cur st; d_stage := d_stage st; d_buf := d_buf st;
              d_prev := d_prev st; d_partial := d_partial st |}.
+
+(* The documented driving loop: feed a piece, then call with empty input until no message is returned; a decoded
+   Set Chunk Size message (type 1) is applied to the deserializer before the next call (what both sessions do). *)
+Inductive drive_err := DrvDe (e : de_err) | DrvBadChunkSize | DrvFuel.
+
+Definition driver_apply (st : dstate) (m : msg) : outcome dstate drive_err :=
+  if m_tid m =? 1 then
+    match take_n (m_data m) 4 with
+    | None => Err DrvBadChunkSize
+    | Some (b, _) =>
+      match de_set_max_chunk_size st (of_be b) with
+      | Ok st' => Ok st'
+      | _ => Err DrvBadChunkSize
+      end
+    end
+  else Ok st.
+
+(* drain: repeated get_next_message with no new input *)
+Fixpoint drain (fuel : nat) (st : dstate) (acc : list msg) : dstate * list msg * option drive_err :=
+  match fuel with
+  | O => (st, acc, Some DrvFuel)
+  | S f =>
+    match get_next_message st [] with
+    | (st', DNone) => (st', acc, None)
+    | (st', DErr e) => (st', acc, Some (DrvDe e))
+    | (st', DOutOfFuel) => (st', acc, Some DrvFuel)
+    | (st', DMsg m) =>
+      match driver_apply st' m with
+      | Ok st'' => drain f st'' (acc ++ [m])
+      | _ => (st', acc ++ [m], Some DrvBadChunkSize)
+      end
+    end
+  end.
+
+(* one input call followed by draining: every complete message consumes at least one byte of the buffer *)
+Definition feed (st : dstate) (piece : bytes) (acc : list msg) : dstate * list msg * option drive_err :=
+  drain (S (S (length (d_buf st) + length piece))) (set_buf st (d_buf st ++ piece)) acc.
+
+Fixpoint feed_all (st : dstate) (pieces : list bytes) (acc : list msg) : dstate * list msg * option drive_err :=
+  match pieces with
+  | [] => (st, acc, None)
+  | p :: r =>
+    match feed st p acc with
+    | (st', ms, None) => feed_all st' r ms
+    | (st', ms, Some e) => (st', ms, Some e)
+    end
+  end.
